@@ -108,6 +108,25 @@ extern int g_thrown;
   } while (0)
 #define CXC_THROW_RET
 
+/* reachability canaries (vacuity guard): a separate -DCXC_CANARY build in which every
+ * canary must FAIL, i.e. be reachable under the contract's precondition            */
+#ifdef CXC_CANARY
+#define CANARY(name) __CPROVER_assert(0, "canary " name)
+#else
+#define CANARY(name) ((void)0)
+#endif
+
+/* logical bounds obligation (see cxc/extract.py IdxRule) */
+static inline ptrdiff_t cxc_idx(ptrdiff_t e, size_t len, const char *what)
+{
+#if defined(CXC_CBMC) && !defined(CXC_CANARY)
+  __CPROVER_assert(e >= 0 && (size_t)e < len, "safety.idx. subscript within the logical length of the array");
+#endif
+  (void)what;
+  return e;
+}
+#define IDX(e, len, what) cxc_idx((ptrdiff_t)(e), (size_t)(len), what)
+
 #define std_min(a, b) ((a) < (b) ? (a) : (b))
 #define std_max(a, b) ((a) > (b) ? (a) : (b))
 
